@@ -32,3 +32,7 @@ var exemptionsC05 = map[string]string{
 	`lisp.READWithPreamble | slice lineItems[0][1][3:]`:                    "group 1 of placeholderRE is `;; $` followed by at least one name character, so it is at least 5 bytes long; C15.format checks that the pattern starts with the preamble prefix",
 	`printer.Pr_str | assert value.(types.HashMap)`:                        "contract of marshaler.HashMap implementations (host types); the only in-module implementation, LispError.MarshalHashMap, returns a types.HashMap",
 }
+
+var exemptionsC03 = map[string]string{
+	"lisp.EVAL | fmt.Errorf %s (around %s)": "the operand is the arity error the binder itself just created (neither a thrown value nor a builtin's error; nobody holds the original); the message is rebuilt with the function's head symbol for context",
+}
